@@ -13,6 +13,7 @@ import Lessm.Spec.VarsSpec
 import Lessm.Spec.MediaSpec
 import Lessm.Model.Mixin
 import Lessm.Model.AtRule
+import Lessm.Model.Str
 
 open Lessm
 
@@ -340,6 +341,37 @@ def run (payload : String) : String :=
         printList (evalList ev sheet) |>.replace "\n" "\\n"
 end AtIO
 
+namespace StrIO
+open Lean Lessm.Str
+
+def run (payload : String) : String :=
+  match Json.parse payload with
+  | .error e => "bad-json " ++ e
+  | .ok j =>
+    match (do
+      let q ← j.getObjValAs? String "q"
+      let t ← j.getObjValAs? String "text"
+      let env ← (← (← j.getObjVal? "env").getArr?).toList.mapM (fun p => do
+        let a ← p.getArr?
+        pure ((← (a[0]!).getStr?), (← (a[1]!).getStr?)))
+      pure (q, t, env) : Except String (String × String × List (String × String))) with
+    | .error e => "bad-item " ++ e
+    | .ok (q, t, env) =>
+        let qc := q.toList.headD '"'
+        match scan qc (t.length + 2) t.toList with
+        | none => (Json.mkObj [("scan", Json.null)]).compress
+        | some (ps, rest) =>
+            let ρ : List Char → Option (List Char) := fun n =>
+              (env.find? (·.1 == String.ofList n)).map (·.2.toList)
+            let ev := match evalString ρ qc ps with
+              | some v => Json.str (String.ofList v)
+              | none => Json.null
+            (Json.mkObj [("parts", Json.arr (ps.toArray.map (fun p => match p with
+                | .text s => Json.arr #[Json.str "t", Json.str (String.ofList s)]
+                | .interp n => Json.arr #[Json.str "i", Json.str (String.ofList n)]))),
+              ("rest", Json.str (String.ofList rest)), ("eval", ev)]).compress
+end StrIO
+
 def handle (op : String) (payload : String) : String :=
   let args := (payload.splitOn " ").filter (· ≠ "")
   match op, args with
@@ -370,6 +402,7 @@ def handle (op : String) (payload : String) : String :=
     | "c07.run", [j] => MediaIO.run j
     | "c05.run", [j] => MixinIO.run j
     | "c19.run", [j] => AtIO.run j
+    | "c18.scan", [j] => StrIO.run j
     | "c17.unknown", name :: rest => Builtins.callUnknown name rest
     | "c06.guard", [g] =>
         match parseGuard g with
